@@ -18,8 +18,10 @@ import (
 
 // KVCfg configures the KV adapter scenario (C15).
 type KVCfg struct {
-	Store string `json:"store"` // boltdb goleveldb gtreap moss metrics-gtreap metrics-boltdb
-	MO    string `json:"mo"`    // append | counter
+	Store string `json:"store"` // boltdb goleveldb gtreap moss metrics-gtreap metrics-boltdb moss-over-gtreap moss-over-mossStore
+	// LLBatch: moss in front of a lower-level store: mossLowerLevelMaxBatchSize
+	LLBatch int    `json:"ll_batch,omitempty"`
+	MO      string `json:"mo"` // append | counter
 	// MossGate: moss's merger is parked after every round and released by the batches marked MR (kvmoss.go)
 	MossGate bool         `json:"moss_gate,omitempty"`
 	Conc     bool         `json:"conc,omitempty"` // clients are scheduler tasks: calls of different clients overlap (kvconc.go)
@@ -119,13 +121,16 @@ func (counterMO) PartialMerge(key, l, r []byte) ([]byte, bool) {
 }
 func (counterMO) Name() string { return "counter" }
 
-var kvStores = []string{"boltdb", "goleveldb", "gtreap", "moss", "metrics-gtreap", "metrics-boltdb"}
+var kvStores = []string{"boltdb", "goleveldb", "gtreap", "moss", "metrics-gtreap", "metrics-boltdb", "moss", "moss-over-gtreap", "moss-over-mossStore"}
 
 func genKV(c *core.Ctx) (KVCfg, KVWL) {
 	g := c.Gen
 	cfg := KVCfg{Store: kvStores[g.Intn(len(kvStores))], MO: []string{"append", "counter"}[g.Intn(2)], Conc: g.Intn(5) < 2, Sched: genSchedCfg(g, false)}
 	cfg.Sched.TimeEvery = 0
 	cfg.MossGate = g.Intn(4) != 0
+	if strings.HasPrefix(cfg.Store, "moss-over-") {
+		cfg.LLBatch = []int{0, 1, 2, 3, 5}[g.Intn(5)]
+	}
 	nreaders := 1 + g.Intn(3)
 	n := 60 + g.Intn(120)
 	if c.Quick {
